@@ -51,7 +51,11 @@ def differential(base):
 def mp_scenarios(tier):
     out = []
     pick7 = {"d1||s2A from p1A", "d1||s1A from p1A", "d1||t1A from empty", "t1A||t2A from Aunref", "d1||d1 from p1A",
-             "d1||xA from p1A", "s1A||s1A from empty", "s1A||t1A from Aunref", "t1A||t1B from empty", "s1A||xA from Aunref"}
+             "d1||xA from p1A", "s1A||s1A from empty", "s1A||t1A from Aunref", "t1A||t1B from empty", "s1A||xA from Aunref",
+             # a failing call beside a call on OTHER identifiers: its roll-back reads the shared lists while the other process
+             # changes them (every access to a Manager list is a round trip of its own)
+             "tag(p1,S1)||tag(p2,S2) pristine [depth 1 width 1] + persistent EIO at T1's refs/cids",
+             "tag(p1,S1)||tag(p2,S2) pristine [depth 1 width 1] + persistent EIO at T1's refs/pids"}
     for s in c07.scenarios("quick" if tier == "quick" else "quick"):
         if s.get("engine") == "L":
             continue  # line-level pre-emption is about memory shared by threads of one process; forked processes share none
@@ -71,6 +75,9 @@ def mp_scenarios(tier):
             s["name"] += " [mp]"
             out.append(s)
     for s in c08.scenarios("quick", "mp"):
+        if tier != "thorough" and "reader between two writers" in s["name"] and not (
+                s["name"].startswith("d1||R1||d1") or s["name"].startswith("M1||RM||M2")):
+            continue  # quick tier: one reader triple per condition family
         if tier == "thorough" or "||" in s["name"] and s["name"].count("||") == 2 or "same pid" in s["name"]:
             out.append(s)
     return out
